@@ -284,7 +284,8 @@ EXTRA = {
     'C26': 'R26.6: the duplicate filter in front of the text / XML / SARIF writers does not depend on the output format (its dependence on --template is a known finding). R26.7: the '
            'level and locations of a SARIF result are computed from the finding itself, not looked up by rule id.',
     'C27': 'R27.3: functions that select one ValueFlow::Value test the severity / certainty options only after the selection loop. R27.4: an option test passed as an argument to a '
-           'data-returning function is used there only as a pure gate, never combined with data to steer a search.',
+           'data-returning function is used there only as a pure gate, never combined with data to steer a search. R27.5: no Check modifies its member state inside a branch controlled by '
+           'a severity / certainty test (one known finding: diag() under --inconclusive in checkDuplicateExpression).',
     'C28': 'R28.4: CppCheck::getErrorMessages passes the caller\'s logger to every documentation emitter.',
     'C29': 'Containers with a user comparator that compares the pointers themselves count as address-ordered; key types that are template parameters are resolved through the '
            'call sites; appends to sequence containers and early exits count as order-capturing (one known finding: productParams).',
